@@ -1,5 +1,6 @@
 import Gql.Proofs.Location
 import Gql.Proofs.LocationLines
+import Gql.Proofs.LexerLines
 /-!
 # C10 — Every reported source location is the true line and column
 
@@ -22,6 +23,23 @@ theorem getLocation_eq_spec (body : List Nat) (p : Nat) (hp : p ≤ body.length)
 beyond the end). -/
 theorem getLocation_no_crash (body : List Nat) (p : Nat) : ¬ (getLocation body p).isCrash :=
   Gql.Text.getLocation_no_crash body p
+
+/-- C10-2. Token line/column fields: every token the lexer returns (for every source text that
+lexes, through every lexer branch — ignored characters, comments, strings with escapes, numbers,
+names, punctuators, block strings with LF / CR / CR LF inside) carries exactly the specification's
+line and column of its start offset. -/
+theorem token_linecol (body : List Nat) (ts : List Token) (h : lexAll body = .ok ts) :
+    ∀ t ∈ ts, (t.line, t.column) = lineCol body t.start :=
+  Gql.Text.lexAll_line body ts h
+
+/-- C10-2b. The same for a single `read_next_token` step from any state that satisfies the
+line invariant — in particular for the tokens lexed before a later syntax error. -/
+theorem next_token_linecol (body : List Nat) (st st' : LexState) (pos : Nat) (t : Token)
+    (hp : pos ≤ body.length) (hi : LineInv body st pos) (hin : ¬ insideCRLF body pos)
+    (h : readNextToken body st pos = .ok (t, st')) :
+    (t.line, t.column) = lineCol body t.start ∧ LineInv body st' t.stop ∧ ¬ insideCRLF body t.stop :=
+  let r := (Gql.Text.readNextToken_line body st pos hp hi hin).of_ok h
+  ⟨r.1, r.2.1, r.2.2.1⟩
 
 /-- C10-5. Rendering a location obtained from the same source never fails: the excerpt
 subscript is in range for every column offset. -/
@@ -58,6 +76,13 @@ example : (6 : Nat) ≤ [97, 13, 10, 98, 12, 10, 99].length ∧ ¬ insideCRLF [9
   decide
 
 example : Spec.lines [97, 13, 10, 98, 12, 10, 99] = [[97], [98, 12], [99]] := by decide
+
+-- token_linecol is not vacuous: a source with a CR LF inside a block string followed by a token
+-- on the closing line (`"""` CR LF `"""` SP `a`) lexes, and the name token sits at 2:5.
+example : (match lexAll [34, 34, 34, 13, 10, 34, 34, 34, 32, 97] with
+    | .ok ts => some (ts.map (fun t => (t.line, t.column)))
+    | _ => none) = some [(1, 1), (2, 5), (2, 6)] := by
+  decide +kernel
 
 -- The excluded offsets exist and are exactly the CR|LF interiors.
 example : insideCRLF [97, 13, 10] 2 ∧ ¬ insideCRLF [97, 13, 10] 1 ∧ ¬ insideCRLF [97, 13, 10] 3 := by decide
